@@ -1733,7 +1733,10 @@ class FG:
             self.P.append(PtrInfo(pr, n, True, alias='al' + pr))
         # calls the caller of gen_program wants to see executed exactly once, before the blocks
         for op, ops in getattr(self, 'pre_calls', []):
-            self.emit(op, *[R(self.rng.choice(self.X)) if o_ == 'X' else R(self.X[0]) if o_ == 'X0' else o_ for o_ in ops])
+            ploc = self.__dict__.setdefault('pre_locals', {})
+            self.emit(op, *[R(self.rng.choice(self.X)) if o_ == 'X' else R(self.X[0]) if o_ == 'X0' else
+                            R(ploc.get(o_[1]) or ploc.setdefault(o_[1], self.new_local('pc'))) if isinstance(o_, tuple) else o_
+                            for o_ in ops])
         # blocks
         labs = [self.label() for _ in range(nblocks)]
         lret = self.label()
@@ -1941,6 +1944,83 @@ def tiny_join_family(p, rng, labbase):
     return callees, calls, labbase
 
 
+def dyn_alloca_family(p, rng, labbase):
+    """a small callee with a DYNAMIC alloca (variable size, or constant size behind a label / a branch: the inliner
+    brackets its body with BSTART/BEND instead of merging the block into the caller's frame), code after its
+    ret (or the ret last: the neighbour), called / inlined in a counted LOOP of main with blocks so large that
+    iterations x size is several times the 8 MB stack: every return from the inlined body must release the
+    block (the reference semantics frees at return).  Returns (callee descriptions, insns for main, label base)."""
+    r = rng
+    fam = len([it for it in p.items if it[0] == 'func' and it[1].name.startswith('da')])
+    name = 'da%d' % fam
+    size = r.choice([1 << 17, 1 << 18, 1 << 19, 1 << 20, (1 << 19) + 4096, (1 << 18) - 8, 3 << 17])
+    niter = (24 << 20) // size + r.randrange(1, 40)
+    shape = r.choice(['var', 'var', 'after-label', 'after-branch', 'top+var'])
+    tail = r.choice(['after-ret', 'after-ret', 'after-ret', 'two-rets', 'ret-last'])
+    args = [('i64', 'n'), ('i64', 'x')]
+    f = Func(name, ['i64'], args)
+    f.locals = [('i64', 'q'), ('i64', 't'), ('i64', 'q0'), ('i64', 'u')]
+    nl = [labbase]
+
+    def lab():
+        nl[0] += 1
+        return Lab(nl[0])
+    e = lambda op, *ops: f.body.append(Insn(op, list(ops)))
+    pl = lambda l: f.body.append(Insn('label', [l]))
+    l0, lout, lback = lab(), lab(), lab()
+    c = r.choice([1, 3, 7, 100, -1])
+    if shape == 'top+var':
+        e('alloca', R('q0'), Imm(r.choice([8, 16, 32])))
+        e('mov', Mem('i64', 0, 'q0'), R('x'))
+    if shape == 'after-label':
+        e('mov', R('u'), Imm(0)); pl(l0); e('alloca', R('q'), Imm(size))
+    elif shape == 'after-branch':
+        e('mov', R('u'), Imm(0)); e('blt', l0, R('n'), Imm(0)); e('mov', R('u'), Imm(1)); pl(l0); e('alloca', R('q'), Imm(size))
+    else:
+        e('alloca', R('q'), R('n'))
+    e('mov', Mem('i64', 0, 'q'), R('x'))
+    if r.random() < 0.5: e('mov', Mem('i64', r.randrange(1, size // 8) * 8, 'q'), Imm(c))
+    if tail == 'ret-last':
+        e('bgt', lout, R('x'), Imm(niter // 2)); e('jmp', lback)
+        pl(lout); e('mov', Mem('i64', 0, 'q'), Imm(c))
+        pl(lback); e('mov', R('t'), Mem('i64', 0, 'q')); e('add', R('t'), R('t'), Imm(c))
+        if shape == 'top+var': e('xor', R('t'), R('t'), Mem('i64', 0, 'q0'))
+        e('ret', R('t'))
+    else:
+        e('bgt', lout, R('x'), Imm(niter // 2))
+        pl(lback); e('mov', R('t'), Mem('i64', 0, 'q')); e('add', R('t'), R('t'), Imm(c))
+        if shape == 'top+var': e('xor', R('t'), R('t'), Mem('i64', 0, 'q0'))
+        e('ret', R('t'))
+        pl(lout); e('mov', Mem('i64', 0, 'q'), Imm(c + 1))
+        if tail == 'two-rets':
+            e('mov', R('t'), Imm(c + 2)); e('ret', R('t'))
+        else:
+            e('jmp', lback)
+    used = set(o_.name for ins in f.body for o_ in ins.ops if isinstance(o_, R)) | \
+        set(o_.base for ins in f.body for o_ in ins.ops if isinstance(o_, Mem) and o_.base)
+    f.locals = [(t, n) for t, n in f.locals if n in used]
+    p.add_item(('proto', 'p_' + name, ['i64'], ['i64', 'i64']))
+    p.add_item(('func', f))
+    # the loop lives in a small caller of its own (a caller as big as main is beyond the inliner's growth limits)
+    lname = 'dl%d' % fam
+    g = Func(lname, ['i64'], [('i64', 'k')])
+    g.locals = [('i64', 'cnt'), ('i64', 'acc'), ('i64', 'res'), ('i64', 'sz')]
+    lh = lab()
+    ge = lambda op, *ops: g.body.append(Insn(op, list(ops)))
+    ge('mov', R('cnt'), R('k')); ge('mov', R('acc'), Imm(0)); ge('mov', R('sz'), Imm(size))
+    g.body.append(Insn('label', [lh]))
+    ge(r.choice(['call', 'inline', 'inline']), Ref('p_' + name), Ref(name), R('res'), R('sz') if r.random() < 0.7 else Imm(size), R('cnt'))
+    ge('add', R('acc'), R('acc'), R('res')); ge('sub', R('cnt'), R('cnt'), Imm(1)); ge('bgt', lh, R('cnt'), Imm(0))
+    ge('ret', R('acc'))
+    p.add_item(('proto', 'p_' + lname, ['i64'], ['i64']))
+    p.add_item(('func', g))
+    acc = ('L', 'acc%d' % fam)
+    calls = [('call', [Ref('p_' + lname), Ref(lname), acc, Imm(niter)]), ('call', [Ref('p_exv'), Ref('exv'), acc, acc])]
+    p.features.add('dyn-alloca-loop:' + shape)
+    p.features.add('dyn-alloca-loop:' + tail)
+    return [dict(name=name, proto='p_' + name, res=['i64'], args=['i64', 'i64'], ptrs={})], calls, nl[0]
+
+
 # ---- whole programs ---------------------------------------------------------------------------------
 REGION_BASE = 0x500000000
 
@@ -2048,6 +2128,10 @@ def gen_program(rng, opts=None):
         tiny_calls = []
         if is_main and rng.random() < o.get('p_tiny_join', 0.2):
             tc, tiny_calls, labbase = tiny_join_family(p, rng, labbase)
+            fopts['labbase'] = labbase
+        if is_main and rng.random() < o.get('p_dyn_alloca_loop', 0.0):
+            _, dcalls, labbase = dyn_alloca_family(p, rng, labbase)
+            tiny_calls = list(tiny_calls) + dcalls
             fopts['labbase'] = labbase
         g = FG(p, rng, name, res, args, ptr_args, list(callees), fopts, depth)
         g.selfinfo = selfinfo
